@@ -15,6 +15,7 @@ RULE = ("pairs (constraint, value): constraints from the grammar of the quantifi
         "says the value conforms, and the three spellings of one constraint must agree. NULL values give no verdict. "
         "distinct = distinct (constraint, value, spelling); non-trivial = composite constraint, range boundary, "
         "alternation or computed value.")
+RULE += (" " + "Also: part of an alternation behind a constraint name used as one arm of the rest (two spellings); function and module values (computed, so that only the run-time check sees them) against every constraint; lists resampled from a subset of a mixed list exemplar's element shapes with 0 .. 2n+1 and 7 elements, at any depth.")
 
 # ------------------------------------------------------------------------------------------ model
 # model values: ("i", n) ("f", x) ("s", str) ("b", bool) ("n",) ("l", [..]) ("t", [(k, v)..])
